@@ -36,6 +36,9 @@ CLAIMS = {
  "C05": ("Generated timeouts, wall-clock phases, client schedules and route lists executed in real time on the TCP path (Server.handle) and on the UDP virtual connection; one-sided timing invariants (never early / bounded late), the buffer bound and fail-closed behaviour are checked per case. Sampled; timing upper bounds use generous slack and must reproduce.",
          "Real clock and scheduler; scripted TCP connection and harness-fed packetConn (overlay shim) instead of kernel sockets, so that silence, trickling and flooding are exact.",
          "property-based testing (rapid) over schedules, real-time invariants"),
+ "C09": ("Stateful (model-based) generation of datagram/handler/idle/shutdown histories against the real servePacket loop on an in-memory PacketConn; invariants over the recorded deliveries, replies and associations (own client only, increasing sequence, no duplicates, replies to the right address, live association not replaced, served again after an association ended, clean shutdown) and no panic or wedge of the loop.",
+         "The in-memory PacketConn fixes arrival order; the idle timeout constant is turned into a variable by a generated overlay of the current layer4/server.go (one token), nothing else in that file is altered; races between Close and the loop are sampled by volume.",
+         "property-based testing (rapid state machine); history invariants"),
 }
 NOT_YET = "check not built yet in this session (planned, see DESIGN.md); not claimed until it is"
 
